@@ -56,9 +56,7 @@ def stable(x, depth=0):
 BASE_MODULES = sorted(n for n in sys.modules if n == "xdis" or n.startswith("xdis."))
 
 
-def containers_digest():
-    """every module-level container of every xdis module that a fresh process has imported (tables such as COMPILER_FLAG_NAMES,
-    dispatch tables, default-argument-like module state): a call that rewrites one of them in place shows here"""
+def containers_now():
     out = {}
     for n in BASE_MODULES:
         m = sys.modules.get(n)
@@ -69,13 +67,52 @@ def containers_digest():
                 continue
             if n == "xdis.op_imports" and a == "op_imports":
                 continue        # digested separately (keys), its values are modules
-            out[n + "." + a] = hashlib.sha1(stable(v).encode("utf-8", "backslashreplace")).hexdigest()[:10]
+            out[n + "." + a] = v
     # class-level containers of the unmarshallers and of the std API (dispatch tables, caches)
     for cls in (xun._VersionIndependentUnmarshaller, xmarsh._FastUnmarshaller, xmarsh._Marshaller, xstd._StdApi):
         for a, v in sorted(vars(cls).items()):
             if not a.startswith("__") and isinstance(v, (dict, list, set)):
-                out[cls.__name__ + "." + a] = hashlib.sha1(stable(v).encode("utf-8", "backslashreplace")).hexdigest()[:10]
+                out[cls.__name__ + "." + a] = v
     return out
+
+
+def snapshot(v):
+    if isinstance(v, dict):
+        return ("dict", dict((stable(k), stable(x)) for k, x in list(v.items())))
+    if isinstance(v, set):
+        return ("set", set(stable(x) for x in v))
+    cnt = {}
+    for x in v:
+        k = stable(x)
+        cnt[k] = cnt.get(k, 0) + 1
+    return ("list", cnt)
+
+
+BASE_CONTAINERS = None
+
+
+def containers_digest():
+    """every module-level container of every xdis module that a fresh process has imported (tables such as COMPILER_FLAG_NAMES,
+    dispatch tables) and the class-level ones of the unmarshallers and the std API: what a fresh process holds in them must still be
+    there, unaltered.  Growth is allowed (a cache that gains entries, fields2copy being extended while a table is built); an entry that
+    is rewritten or removed is a table a later call reads differently.  Returns the names of the altered containers."""
+    altered = []
+    now = containers_now()
+    for name, (kind, base) in BASE_CONTAINERS.items():
+        v = now.get(name)
+        if v is None or (kind == "dict") != isinstance(v, dict) or (kind == "set") != isinstance(v, set):
+            altered.append(name + ":gone")
+            continue
+        k2, cur = snapshot(v)
+        if kind == "dict":
+            bad = [k for k, x in base.items() if cur.get(k) != x]
+        elif kind == "set":
+            bad = [k for k in base if k not in cur]
+        else:
+            bad = [k for k, c in base.items() if cur.get(k, 0) < c]
+        if bad:
+            altered.append("%s:%s" % (name, sorted(bad)[0][:40]))
+    return altered
 
 
 def shared_digest():
@@ -138,8 +175,12 @@ def op_std_variant(vt, variant):
         co = load_module(FILES["f27pypy" if variant == "pypy" else "f27"])[3]
     finally:
         xload.PYTHON_MAGIC_INT = saved
-    ins = [(i.offset, i.opname, i.arg) for i in api.Bytecode(co)]
+    from proj import walk
+    ins = [(pth, i.offset, i.opname, i.arg) for pth, c in walk(co) for i in api.Bytecode(c)]     # nested code too: variant opcodes sit in function bodies
     buf = io.StringIO()
+    import contextlib
+    with contextlib.redirect_stdout(buf):
+        api.show_code(co)            # without a file: the only entry point that passes the variant down to the flag names
     api.show_code(co, file=buf)
     mask = lambda t: re.sub(r"0x[0-9a-f]+", "0x?", t)
     return dg([sorted(api.opmap.items()), list(api.opname), api.is_pypy, ins, mask(buf.getvalue()), mask(api.code_info(co))])
@@ -186,7 +227,7 @@ OPS = {
 
 
 def run_history(hist):
-    res, sh = [], []
+    res, sh, al = [], [], []
     for op in hist:
         try:
             with xd.quiet():
@@ -195,7 +236,8 @@ def run_history(hist):
             r = "raised:%s" % type(e).__name__
         res.append(r)
         sh.append(shared_digest())
-    return res, sh
+        al.append(containers_digest())
+    return res, sh, al
 
 
 def in_child(fn):
@@ -222,7 +264,9 @@ def in_child(fn):
 
 
 def main():
+    global BASE_CONTAINERS
     out, hists = sys.argv[1], [json.loads(l)["hist"] for l in open(sys.argv[2])]
+    BASE_CONTAINERS = dict((n, snapshot(v)) for n, v in containers_now().items())
     shared0 = shared_digest()
     base = {}
     for op in OPS:
@@ -235,7 +279,7 @@ def main():
             if isinstance(r, dict):
                 fh.write(json.dumps({"hist": h, "error": r["crash"]}) + "\n")
             else:
-                fh.write(json.dumps({"hist": h, "results": r[0], "shareds": r[1]}) + "\n")
+                fh.write(json.dumps({"hist": h, "results": r[0], "shareds": r[1], "altered": r[2]}) + "\n")
 
 
 if __name__ == "__main__":
